@@ -90,7 +90,7 @@ class C19(F.Check):
         return {'answers': len(answers()), 'pairs_menu': 9 if tier == 'thorough' else 6}
 
     def jobs(self, tier, seed):
-        jobs = [{'k': 'answers', 'proxy': pi} for pi in range(len(PROXIES))]
+        jobs = [{'k': 'answers', 'proxy': pi, 'all_cuts': tier == 'thorough'} for pi in range(len(PROXIES))]
         jobs += [{'k': 'mapping'}, {'k': 'offsets'}, {'k': 'faults'}, {'k': 'pairs', 'n': 9 if tier == 'thorough' else 6}, {'k': 'intruder'}]
         return jobs
 
@@ -211,6 +211,14 @@ class C19(F.Check):
                     world, run, events, conns = self.one(0, pi, steps)
                     problems = self.judge_attempt(world, events, conns, PROXIES[pi], TARGETS[0], True)
                     self.account(res, {'k': 'cut', 'proxy': pi, 'cut': cut, 'trailing': bool(trailing)}, run, events, problems, 'cut')
+            if job.get('all_cuts'):
+                for name, (steps, up) in sorted(ans.items()):
+                    if len(steps) != 1 or not isinstance(steps[0], bytes) or len(steps[0]) > 400:
+                        continue
+                    for cut in range(1, len(steps[0])):
+                        world, run, events, conns = self.one(2, pi, [steps[0][:cut], steps[0][cut:]])
+                        problems = self.judge_attempt(world, events, conns, PROXIES[pi], TARGETS[2], up)
+                        self.account(res, {'k': 'cut-any', 'proxy': pi, 'answer': name, 'cut': cut}, run, events, problems, 'cut:' + name)
             res.samples.append({'proxy': PROXIES[pi][0], 'answers': sorted(ans)[:6]})
         elif job['k'] == 'mapping':
             P = PROXIES[0][0]
@@ -347,6 +355,7 @@ class C19(F.Check):
     def replay(self, case, verbose=True):
         res = F.JobResult()
         job = {'answers': {'k': 'answers', 'proxy': case.get('proxy', 0)}, 'cut': {'k': 'answers', 'proxy': case.get('proxy', 0)},
+               'cut-any': {'k': 'answers', 'proxy': case.get('proxy', 0), 'all_cuts': True},
                'mapping': {'k': 'mapping'}, 'offset': {'k': 'offsets'}, 'fault': {'k': 'faults'}, 'pair': {'k': 'pairs', 'n': 9}, 'intruder': {'k': 'intruder'}}[case['k']]
         r = self.run_job(job)
         out = [v for v in r.violations if v.case == case]
